@@ -107,3 +107,33 @@ Proof.
   intros ops e v s Hp Hv. apply check_edif_identifier_spec. apply (reachable_legal ops e v Hp Hv).
 Qed.
 Print Assumptions C10_stored_identifiers_legal.
+
+(* "... or by cloning": in every state reachable by editing calls, after a completed clone() of a
+   definition that carries a naming policy, every namespace table - those of the original design and
+   the one of the copy, rebuilt when the policy is re-applied to the detached copy - is exactly the
+   names (identifiers) of the children of its scope; so uniqueness, lookup = scan and exact refusal
+   (the corollaries above, which only use the invariant) hold on the result. Typing and containment
+   are kept as well, so the invariant continues to hold under further editing calls (C10_step). *)
+From SV Require Import Xform.Clone Proofs.Inv1a Proofs.CloneNs.
+Theorem C10_clone_definition_tables_exact : forall ops d,
+  let s := run ops init in
+  d < next s -> has_key s d str_NS = true -> snd (fst (clone_definition s d)) = None ->
+  let s' := fst (fst (clone_definition s d)) in NsInv s' /\ InvT s' /\ Inv1a s'.
+Proof. exact clone_definition_nsinv. Qed.
+Print Assumptions C10_clone_definition_tables_exact.
+
+(* non-vacuity: a cell "e" with a child "i" and a cable "c" is cloned; the copy (9) answers lookups
+   for its own cable (10) and child (12), the original (5) for its own (7, 6) *)
+Example C10_clone_sample :
+  let ops := [ ONew KNetlist None []; OCreate RLibs 0 None [] 0 None; OCreate RDefs 1 (Some [100%N]) [] 0 None;
+               OCreate RPorts 2 (Some [97%N]) [] 1 None; OCreate RDefs 1 (Some [101%N]) [] 0 None;
+               OCreate RChildren 5 (Some [105%N]) [] 0 (Some 2); OCreate RCables 5 (Some [99%N]) [] 1 None;
+               OConnect 8 (POut 6 4) None ] in
+  let s := run ops init in
+  let r := clone_definition s 5 in
+  let s' := fst (fst r) in
+  next s = 9 /\ has_key s 5 str_NS = true /\ snd (fst r) = None /\ snd r = 9 /\
+  fast_lookup s' 9 KCable str_NAME [99%N] = Some 10 /\ fast_lookup s' 9 KInstance str_NAME [105%N] = Some 12 /\
+  fast_lookup s' 5 KCable str_NAME [99%N] = Some 7 /\ fast_lookup s' 5 KInstance str_NAME [105%N] = Some 6 /\
+  scan_lookup s' (kids s' RCables 9) str_NAME [99%N] = Some 10.
+Proof. vm_compute. repeat split. Qed.
